@@ -1,0 +1,13 @@
+// +build verif
+
+package log
+
+// VerifSetUserName replaces the user name that logName puts into log file
+// names and returns the previous one. Only built with the verif tag: it
+// lets the verification harness exercise file naming for user names it
+// cannot run under.
+func VerifSetUserName(n string) string {
+	old := userName
+	userName = n
+	return old
+}
